@@ -33,6 +33,7 @@ RULE = (
     "(zone) zones with delegations, glue, occluded data at and below cuts, empty non-terminals, "
     "wildcards, relativize on/off, three zone classes. non-trivial = RDATA contains a name with an "
     "upper-case letter / zone has >=1 delegation with glue and >=1 empty non-terminal"
+    ' NSEC bitmaps are compared octet for octet with an RFC 4034 4.1.2 encoder; key tags include keys steered at the double-carry boundary.'
 )
 ASSUMPTIONS = [
     "vlib/ref/canon.py and vlib/ref/dnssec_ref.py (hashlib only) are the trusted references",
